@@ -595,6 +595,10 @@ func HashMapOfValueGet(vm *Thread, hashMap *HashMapOfValue, key value.Value) (va
 	if index == -1 {
 		return value.Undefined, value.Undefined
 	}
+	if hashMap.Table[index].Key().IsUndefined() {
+		// empty or deleted slot: the key is not present
+		return value.Undefined, value.Undefined
+	}
 
 	return hashMap.Table[index].Value(), value.Undefined
 }
